@@ -409,6 +409,96 @@ func runC12(r *Run, p *Prog) {
 			r.Ob("X3", shortName(de), "any other error name is returned as the untyped *Error itself", de.Pos(), okDef, "the default path of DispatchError does not return the receiver")
 		}
 	})
+	// ---- X5: what the client's receive function reports reaches the caller of the convenience API as the same error
+	// value: every function of the package that calls Send and the function Send returns (Call; GetInfo and the
+	// resolver go through Call) returns, as its error, nil or exactly an error result of those two calls - wrapped or
+	// re-created errors (fmt.Errorf("%s: %v", method, err)) are no longer the typed values a caller can match
+	r.Guard("X5", func() {
+		cm := buildClientModel(p, ro)
+		if cm.SendBuilt == nil {
+			r.Unresolved("X5", "client Send")
+			return
+		}
+		n := 0
+		// (and, one level up, the functions that call those: GetInfo, GetInterfaceDescription, the resolver helpers)
+		targets := map[*ssa.Function]bool{cm.SendBuilt: true}
+		var fns []*ssa.Function
+		for round := 0; round < 2; round++ {
+			var add []*ssa.Function
+			for _, f := range p.FuncsOf(pkgVarlink) {
+				if f.Parent() != nil || targets[f] || len(f.Blocks) == 0 {
+					continue
+				}
+				res := f.Signature.Results()
+				if res.Len() == 0 || !isErrorType(res.At(res.Len()-1).Type()) {
+					continue
+				}
+				for _, cs := range callsIn(f, false) {
+					if t := staticTarget(cs.Common); t != nil && targets[t] {
+						add = append(add, f)
+						break
+					}
+				}
+			}
+			for _, f := range add {
+				targets[f] = true
+				fns = appendFn(fns, f)
+			}
+		}
+		for _, f := range fns {
+			res := f.Signature.Results()
+			var sends []*ssa.Call
+			for _, cs := range callsIn(f, false) {
+				if c, ok := cs.Instr.(*ssa.Call); ok && targets[staticTarget(cs.Common)] && staticTarget(cs.Common) != f {
+					sends = append(sends, c)
+				}
+			}
+			if len(sends) == 0 {
+				continue
+			}
+			okTerms := map[string]bool{"nil": true}
+			for _, sc := range sends {
+				if tup, isTup := sc.Type().(*types.Tuple); isTup {
+					okTerms[fmt.Sprintf("ext(%s,%d)", T.T(sc), tup.Len()-1)] = true
+				} else {
+					okTerms[T.T(sc)] = true
+				}
+				// the call of the returned function value
+				for _, cs := range callsIn(f, false) {
+					if c, ok := cs.Instr.(*ssa.Call); ok && !c.Call.IsInvoke() && T.T(c.Call.Value) == "ext("+T.T(sc)+",0)" {
+						okTerms["ext("+T.T(c)+",1)"] = true
+						okTerms[T.T(c)] = true
+					}
+				}
+			}
+			for _, rv := range returnedValues(f, res.Len()-1) {
+				// (only returns after Send was called: argument checks before it may fail with their own errors)
+				after := false
+				for _, sc := range sends {
+					if sc.Block() == rv.Ret.Block() || sc.Block().Dominates(rv.Ret.Block()) {
+						after = true
+					}
+				}
+				if !after {
+					continue
+				}
+				n++
+				vt := T.T(rv.Val)
+				ok := okTerms[vt]
+				if ph, isPhi := rv.Val.(*ssa.Phi); isPhi && !ok {
+					ok = true
+					for _, e := range ph.Edges {
+						if !okTerms[T.T(e)] {
+							ok = false
+						}
+					}
+				}
+				r.Ob("X5", shortName(f), "the error of Send / receive is returned as it is", rv.Ret.Pos(), ok,
+					"returns "+strip(vt)+": the caller no longer gets the error value the receive function produced (*Error with the remote name and parameters, or the dedicated typed error), so it cannot match it")
+			}
+		}
+		r.Floor("X5", 2)
+	})
 }
 
 // armInstrs: instructions of the blocks dominated by (and including) start, in block order.
